@@ -25,6 +25,7 @@ SPEC = {
     "required_theorems": [
         "Sema.C18.C18_vec_len", "Sema.C18.C18_vec_len_search", "Sema.C18.C18_vec_len_stored",
         "Sema.C18.C18_accept_wf", "Sema.C18.C18_reject_pure", "Sema.C18.C18_no_panic", "Sema.C18.C18_headers",
+        "Sema.C18.C18_search_dormant", "Sema.C18.C18_search_status_live", "Sema.C18.C18_wrong_length_refused", "Sema.C18.C18_v1_by_type",
         "Sema.C18.C18_slice_bounds", "Sema.C18.C18_slice_bounds_pinned",
         "Sema.C18.C18_pin_limits", "Sema.C18.C18_pin_enums", "Sema.C18.C18_pin_chain", "Sema.C18.C18_pin_routes", "Sema.C18.C18_pin_skeleton",
     ],
